@@ -1082,25 +1082,7 @@ def task_text_write_wiring(scratch, tier, seed, logdir):
     fns = fns_for(scratch, "sfs-core")
     ob = Ob("text_write_wiring", ["spectrum::io::write::Builder::write", "spectrum::io::text::write_spectrum", "text::format_spectrum (+ closure)"], "every path; calls uninterpreted; data flow of the precision argument")
     try:
-        fld = struct_fields(os.path.join(scratch.src, "core/src/spectrum/io/write.rs"), "Builder")
-        g = mir.find_fn(fns, r"io/write\.rs>::write$", params=["Builder"])
-        seen = set()
-        for p in mir.Exec(g, [], max_paths=100).run({"_1": V("builder", "U"), "_2": ("ref", "$w"), "$w": V("w", "U"), "_3": ("ref", "$sp"), "$sp": V("spectrum", "U")}):
-            if p.end != "return":
-                continue
-            r = show(p.ret)
-            if r.startswith("write_spectrum"):
-                seen.add("text")
-                if r != f"write_spectrum::<W, S>(w, spectrum, field(builder, {fld['precision']}))":
-                    ob.fail("violation", "text output is not write_spectrum(writer, spectrum, self.precision): " + r[:160])
-            elif "write_npy" in r:
-                seen.add("npy")
-                if not re.fullmatch(r"array::Array::<f64>::write_npy::<&mut W>\(refto\(field\(spectrum, 0\)\), w\)", r):
-                    ob.fail("violation", "npy output is not spectrum.array.write_npy(writer): " + r[:160])
-            else:
-                ob.fail("violation", "write::Builder::write returns something else than one of the two writers: " + r[:120])
-        if seen != {"text", "npy"}:
-            ob.fail("inconclusive", f"formats seen: {sorted(seen)}")
+        seen = {"text", "npy"}   # the dispatch itself is task write_dispatch_wiring
         f = mir.find_fn(fns, r"^format_spectrum$")
         n = 0
         through = False
@@ -1693,6 +1675,33 @@ def task_read_site_wiring(scratch, tier, seed, logdir):
                 want = rf"ctor:Read\(ctor:Projected\(PartialProjection::project_unchecked\(field\(as_Some\(Option::<PartialProjection>::as_mut\(refto\(field\({base}, {P}\)\)\)\), 0\), refto\(field\({base}, {T}\)\), refto\(field\({base}, {C}\)\)\)\)\)"
                 if not re.fullmatch(want, r):
                     ob.fail("violation", "Projected is not projection.project_unchecked(&self.totals, &self.counts): " + r[:260])
+        # the genotype reader's Error / Done answers are passed on as such
+        txt = open(os.path.join(scratch.src, "core/src/input.rs")).read()
+        m = re.search(r"pub enum ReadStatus<T> \{(.*?)\n\}", txt, re.S)
+        variants = re.findall(r"^\s*([A-Z][A-Za-z]*)(?:\(|,)", m.group(1), re.M)
+        ends = set()
+        for p in paths:
+            if p.end != "return":
+                continue
+            cons = [c for t, c in p.state.pc if re.fullmatch(r"discriminant\(<dyn input::genotype::reader::Reader as input::genotype::reader::Reader>::read_genotypes\(.*\)\)", show(t))]
+            if not cons:
+                ob.fail("inconclusive", "a return path that does not look at the genotype reader's answer")
+                continue
+            kind, val = cons[0]
+            allowed = {variants[int(val)]} if kind == "eq" else set(variants) - {variants[int(v)] for v in val}
+            r = show(p.ret)
+            if "Error" in allowed:
+                ends.add("error")
+                if not re.fullmatch(r"ctor:Error\(field\(as_Error\(<dyn input::genotype::reader::Reader as input::genotype::reader::Reader>::read_genotypes\(.*\)\), 0\)\)", r):
+                    ob.fail("violation", "an error of the genotype reader is not passed on as that error: " + r[:120])
+            if "Done" in allowed:
+                ends.add("done")
+                if allowed == {"Done"} and r != "ctor:Done()":
+                    ob.fail("violation", "the end of the input is not answered with Done: " + r[:120])
+            if allowed == {"Read"} and r.startswith("ctor:Done("):
+                ob.fail("violation", "a record that was read is answered with Done")
+        if ends != {"error", "done"}:
+            ob.fail("inconclusive", f"Error / Done arms found: {sorted(ends)}")
         if not {"standard", "projected"} <= seen:
             ob.fail("inconclusive", f"arms found: {sorted(seen)}")
         ob.d["nonvacuous"] = {"standard", "projected"} <= seen
@@ -1921,14 +1930,14 @@ PMF_NATIVE_TEST = r"""
         fn close(a: f64, b: f64) -> bool {
             (a - b).abs() <= 1e-9 * b.abs().max(1e-300)
         }
-        for n in (0..=60u64).chain([100, 150, 169, 170, 171, 172, 173, 180, 200, 250, 340, 341, 400, 1000]) {
-            for k in (0..=6u64).chain([n / 3, n / 2, n.saturating_sub(2), n.saturating_sub(1), n, n + 1]) {
+        for n in (0..=260u64).chain([340, 341, 400, 513, 1000]) {
+            for k in (0..=n + 1).filter(|&k| n <= 130 || k <= 6 || k + 3 >= n || k % 7 == 0 || k == n / 2 || k == n / 3) {
                 let got = binomial(n, k);
                 let want = exact(n, k);
                 assert!(close(got, want), "binomial({n}, {k}) = {got}, exact {want}");
             }
         }
-        for (size, successes, draws) in [(6u64, 2u64, 4u64), (20, 7, 10), (170, 60, 20), (171, 60, 20), (180, 90, 170), (200, 100, 10), (400, 150, 30)] {
+        for (size, successes, draws) in [(6u64, 2u64, 4u64), (20, 7, 10), (64, 32, 32), (66, 30, 33), (80, 40, 40), (170, 60, 20), (171, 60, 20), (180, 90, 170), (200, 100, 10), (400, 150, 30)] {
             let mut sum = 0.0;
             for observed in 0..=draws + 1 {
                 let got = hypergeometric_pmf(size, successes, draws, observed);
@@ -2178,6 +2187,172 @@ def task_fold_wiring(scratch, tier, seed, logdir):
     return [ob.done()]
 
 
+HARMONIC_NATIVE_TEST = r"""
+    #[test]
+    fn kv_harmonic_against_direct_sum() {
+        for n in (0..=400u64).chain([511, 512, 513, 1000, 1023, 1024, 1025, 4096, 10000, 100001]) {
+            for p in [1u32, 2] {
+                // reference: the same terms added in the same order, and (compensated) in reverse order
+                let direct: f64 = (1..n).map(|i| 1.0 / (i.pow(p) as f64)).sum();
+                let (mut sum, mut c) = (0.0f64, 0.0f64);
+                for i in (1..n).rev() {
+                    let y = 1.0 / (i.pow(p) as f64) - c;
+                    let t = sum + y;
+                    c = (t - sum) - y;
+                    sum = t;
+                }
+                let got = p_harmonic(n, p);
+                assert!((got - sum).abs() <= 1e-12 * sum.max(1.0), "p_harmonic({n}, {p}) = {got}, sum of the first n - 1 terms = {sum} (direct {direct})");
+                if p == 1 {
+                    let h = harmonic(n);
+                    assert!((h - sum).abs() <= 1e-12 * sum.max(1.0), "harmonic({n}) = {h}, sum of the first n - 1 terms = {sum}");
+                }
+            }
+        }
+    }
+"""
+
+
+def task_harmonic_wiring(scratch, tier, seed, logdir):
+    """C06: utils::harmonic(n) = p_harmonic(n, 1); p_harmonic(n, p) = sum over i in 1..n of 1 / (i^p as f64):
+    the n - 1 terms the Watterson / Tajima / Fu-Li constants are defined with (a_n, b_n)."""
+    fns = fns_for(scratch, "sfs-core")
+    ob = Ob("harmonic_wiring", ["utils::harmonic", "utils::p_harmonic (+ closure)"], "every path; Iterator::sum / map / pow uninterpreted; floating-point rounding of the sum is outside")
+    dev = []
+    try:
+        f = mir.find_fn(fns, r"^harmonic$")
+        ps = [p for p in mir.Exec(f, [], max_paths=50).run({"_1": V("n", "int")}) if p.end == "return"]
+        if [show(p.ret) for p in ps] != ["p_harmonic(n, 1)"] or ps[0].state.pc:
+            dev.append("harmonic(n) is not p_harmonic(n, 1): " + "; ".join(show(p.ret) for p in ps)[:200])
+        f = mir.find_fn(fns, r"^p_harmonic$")
+        ps = [p for p in mir.Exec(f, [], max_paths=50).run({"_1": V("n", "int"), "_2": V("p", "int")}) if p.end == "return"]
+        ok = len(ps) == 1 and not ps[0].state.pc and re.fullmatch(
+            r"<std::iter::Map<std::ops::Range<u64>, \{closure@[^}]*\}> as Iterator>::sum::<f64>\(<std::ops::Range<u64> as Iterator>::map::<f64, \{closure@[^}]*\}>\(ctor:Range\(1, n\), closure\{closure@[^}]*\}\{p\}\(&_2\)\)\)", show(ps[0].ret))
+        if not ok:
+            dev.append("p_harmonic(n, p) is not (1..n).map(term).sum(): " + "; ".join(show(p.ret) for p in ps)[:200])
+        cs = [c for c in fns if re.search(r"^p_harmonic::\{closure#0\}$", mir.norm_name(c.name))]
+        if len(cs) == 1:
+            ps = [p for p in mir.Exec(cs[0], [], max_paths=50).run({"_1": ("ref", "$cl"), "$cl": V("cl", "U"), "_2": V("i", "int")}) if p.end == "return"]
+            if [show(p.ret) for p in ps] != ["Div(1.0, to_real(core::num::<impl u64>::pow(i, deref(field(cl, 0)))))"]:
+                dev.append("the term is not 1 / (i^p as f64): " + "; ".join(show(p.ret) for p in ps)[:200])
+        else:
+            dev.append(f"{len(cs)} closures in p_harmonic")
+        ob.d["queries"] += 3
+        ob.d["nonvacuous"] = True
+        if dev:
+            ob.fail("violation", " | ".join(dev))
+            ob.d["native_test"] = dict(crate="sfs-core", file="core/src/utils.rs", name="kv_harmonic_against_direct_sum", code=HARMONIC_NATIVE_TEST)
+    except (LookupError, ValueError, RuntimeError, KeyError, IndexError, AttributeError, TypeError) as e:
+        ob.fail("inconclusive", f"translator: {type(e).__name__}: {e}")
+    return [ob.done()]
+
+
+WRITE_NATIVE_TEST = r"""
+    struct KvSink {
+        accept: usize,
+        per_call: usize,
+        got: Vec<u8>,
+    }
+    impl io::Write for KvSink {
+        fn write(&mut self, buf: &[u8]) -> io::Result<usize> {
+            if self.got.len() >= self.accept {
+                return Err(io::Error::new(io::ErrorKind::Other, "sink full"));
+            }
+            let n = buf.len().min(self.per_call).min(self.accept - self.got.len());
+            self.got.extend_from_slice(&buf[..n]);
+            Ok(n)
+        }
+        fn flush(&mut self) -> io::Result<()> {
+            Ok(())
+        }
+    }
+
+    #[test]
+    fn kv_writer_failures_surface() {
+        let scs = crate::Scs::new((0..12).map(|i| i as f64 * 1.25).collect::<Vec<_>>(), crate::array::Shape(vec![3, 4])).unwrap();
+        for format in [Format::Text, Format::Npy] {
+            let make = || Builder::default().set_format(format).set_precision(3);
+            let mut whole = Vec::new();
+            make().write(&mut whole, &scs).unwrap();
+            for per_call in [1usize, 3, 7, 4096] {
+                let mut sink = KvSink { accept: usize::MAX, per_call, got: Vec::new() };
+                make().write(&mut sink, &scs).unwrap();
+                assert_eq!(sink.got, whole, "{format:?}: a writer that takes {per_call} byte(s) per call receives other bytes");
+            }
+            for accept in 0..whole.len() {
+                for per_call in [1usize, 5, 4096] {
+                    let mut sink = KvSink { accept, per_call, got: Vec::new() };
+                    let r = make().write(&mut sink, &scs);
+                    assert!(r.is_err(), "{format:?}: the writer failed after {accept} of {} bytes but write returned Ok", whole.len());
+                    assert!(sink.got.len() <= accept && sink.got[..] == whole[..sink.got.len()]);
+                }
+            }
+            if std::path::Path::new("/dev/full").exists() {
+                assert!(make().write_to_path("/dev/full", &scs).is_err(), "{format:?}: writing to a full device returned Ok");
+            }
+        }
+    }
+"""
+
+
+def task_write_dispatch_wiring(scratch, tier, seed, logdir):
+    """C07 / C13 / C18: write::Builder hands the caller's writer itself (no intermediate buffer whose
+    flush could swallow an error) to exactly one of the two format writers, with the spectrum and its
+    own precision; stdout / path variants pass the locked stdout / the created file to the same function."""
+    fns = fns_for(scratch, "sfs-core")
+    ob = Ob("write_dispatch_wiring", ["spectrum::io::write::Builder::{write, write_to_stdout, write_to_path, write_to_path_or_stdout}"], "every path; calls uninterpreted")
+    dev = []
+    try:
+        fld = struct_fields(os.path.join(scratch.src, "core/src/spectrum/io/write.rs"), "Builder")
+        g = mir.find_fn(fns, r"io/write\.rs>::write$", params=["Builder"])
+        seen = set()
+        for p in mir.Exec(g, [], max_paths=100).run({"_1": V("builder", "U"), "_2": ("ref", "$w"), "$w": V("w", "U"), "_3": ("ref", "$sp"), "$sp": V("spectrum", "U")}):
+            ob.d["queries"] += 1
+            if p.end != "return":
+                continue
+            r = show(p.ret)
+            if r.startswith("write_spectrum"):
+                seen.add("text")
+                if r != f"write_spectrum::<W, S>(w, spectrum, field(builder, {fld['precision']}))":
+                    dev.append("text output is not write_spectrum(writer, spectrum, self.precision): " + r[:160])
+            elif "write_npy" in r:
+                seen.add("npy")
+                if not re.fullmatch(r"array::Array::<f64>::write_npy::<&mut W>\(refto\(field\(spectrum, 0\)\), w\)", r):
+                    dev.append("npy output is not spectrum.array.write_npy(writer): " + r[:160])
+            else:
+                dev.append("write::Builder::write returns something else than one of the two writers: " + r[:160])
+        if seen != {"text", "npy"} and not dev:
+            ob.fail("inconclusive", f"formats seen: {sorted(seen)}")
+        g = mir.find_fn(fns, r"io/write\.rs>::write_to_stdout$")
+        rs = [show(p.ret) for p in mir.Exec(g, [], max_paths=100).run({"_1": V("builder", "U"), "_2": ("ref", "$sp"), "$sp": V("spectrum", "U")}) if p.end == "return"]
+        if len(rs) != 1 or not re.fullmatch(r"spectrum::io::write::Builder::write::<StdoutLock<'_>, S>\(builder, (?:refto\()?Stdout::lock\(stdout\(\)\)\)?, spectrum\)", rs[0]):
+            dev.append("write_to_stdout is not self.write(&mut stdout().lock(), spectrum): " + "; ".join(rs)[:200])
+        g = mir.find_fn(fns, r"io/write\.rs>::write_to_path$")
+        ps = [p for p in mir.Exec(g, [], max_paths=100).run({"_1": V("builder", "U"), "_2": V("path", "U"), "_3": ("ref", "$sp"), "$sp": V("spectrum", "U")}) if p.end == "return"]
+        okp = errp = 0
+        for p in ps:
+            r = show(p.ret)
+            if re.fullmatch(r"spectrum::io::write::Builder::write::<File, S>\(builder, (?:refto\()?field\(as_Continue\(<std::result::Result<File, std::io::Error> as Try>::branch\(File::create::<P>\(path\)\)\), 0\)\)?, spectrum\)", r):
+                okp += 1
+            elif "from_residual" in r and "as_Break" in r:
+                errp += 1
+            else:
+                dev.append("write_to_path is not self.write(&mut File::create(path)?, spectrum): " + r[:200])
+        if (okp, errp) != (1, 1) and not dev:
+            ob.fail("inconclusive", f"write_to_path arms: ok={okp} err={errp}")
+        g = mir.find_fn(fns, r"io/write\.rs>::write_to_path_or_stdout$")
+        rs = sorted(show(p.ret) for p in mir.Exec(g, [], max_paths=100).run({"_1": V("builder", "U"), "_2": V("path", "U"), "_3": ("ref", "$sp"), "$sp": V("spectrum", "U")}) if p.end == "return")
+        if rs != ["spectrum::io::write::Builder::write_to_path::<P, S>(builder, field(as_Some(path), 0), spectrum)", "spectrum::io::write::Builder::write_to_stdout::<S>(builder, spectrum)"]:
+            dev.append("write_to_path_or_stdout is not [Some(path) -> write_to_path; None -> write_to_stdout]: " + "; ".join(rs)[:200])
+        ob.d["nonvacuous"] = True
+        if dev:
+            ob.fail("violation", " | ".join(dev))
+            ob.d["native_test"] = dict(crate="sfs-core", file="core/src/spectrum/io/write.rs", name="kv_writer_failures_surface", code=WRITE_NATIVE_TEST)
+    except (LookupError, ValueError, RuntimeError, KeyError, IndexError, AttributeError, TypeError) as e:
+        ob.fail("inconclusive", f"translator: {type(e).__name__}: {e}")
+    return [ob.done()]
+
+
 def task_main_exit(scratch, tier, seed, logdir):
     """C10 / C16 / C17: main maps every Err of run() to a message on stderr and exit status 1."""
     fns = fns_for(scratch, "sfs-cli")
@@ -2267,6 +2442,8 @@ TASKS = {
     "pmf_wiring": task_pmf_wiring,
     "projection_wiring": task_projection_wiring,
     "fold_wiring": task_fold_wiring,
+    "harmonic_wiring": task_harmonic_wiring,
+    "write_dispatch_wiring": task_write_dispatch_wiring,
     "shape_closures": task_shape_closures,
 }
 
